@@ -498,9 +498,35 @@ func runC05(e *env) {
 	}
 	for k := 0; k < nm && len(sg) > 0; k++ {
 		b := sg[rng.Intn(len(sg))]
+		if k%4 == 3 {
+			if m, ok := c05MutateString(rng, b.segs); ok {
+				ins = append(ins, c05Input{b.in.Fam + "-string", m, b.in.Expr})
+				continue
+			}
+		}
 		ins = append(ins, c05Input{b.in.Fam, c05Mutate(rng, b.segs), b.in.Expr})
 	}
 	s.check(ins, true)
+
+	// (4b) attribute forms: every command with every attribute empty, missing, duplicated, unknown, malformed
+	ins = nil
+	var insOracle []c05Input
+	atags := c05Dedup(c05AttrTags())
+	e.res.Histogram["dictionary:attribute-forms"] = len(atags)
+	for i, t := range atags {
+		for lvl := 0; lvl < 3; lvl++ {
+			for _, body := range []string{t, t + c05Closer(t)} {
+				in := c05Input{"attrs", c05Wrap(lvl, body), false}
+				if thorough || (i+lvl)%3 == 0 {
+					ins = append(ins, in)
+				} else {
+					insOracle = append(insOracle, in)
+				}
+			}
+		}
+	}
+	s.check(ins, true)
+	s.check(insOracle, false)
 
 	// (5) random bytes
 	ins = nil
